@@ -104,6 +104,18 @@ CHECKS = {
         note="Modulo the linregress exact-fit lemma and numpy searchsorted/flatnonzero semantics (executed by real numpy on "
              "object arrays); shape-bounded in the number of points; real arithmetic; sympy trusted.",
         technique="symbolic execution of the real *_raw functions + z3 nlsat with a linregress contract stub; sympy for log transforms"),
+    'C19': dict(
+        category='proof',
+        text="isosteric_enthalpy_raw is executed on symbolic rows ln p_j = -dH/(R T_j) + c for 2..5 distinct temperatures in any order "
+             "(the whole quantified range): with the linregress exact-fit lemma every returned enthalpy is proved equal to dH; a "
+             "sympy lemma shows that Langmuir/Toth/DS-Langmuir with van 't Hoff affinity produce such rows; isosteric_enthalpy is "
+             "proved to request one common, complete loading and pressure representation from every isotherm and to pass kelvin "
+             "temperatures; the Whittaker loop body is proved equal to the published closed form with the skip set and the "
+             "triple-point cap; initial_enthalpy_point returns the first enthalpy of the branch.",
+        design_ref='§3 C19',
+        note="Modulo the linregress lemma, accessor contracts (C03) and adsorbate getter contracts; exp/ln uninterpreted with axioms; "
+             "interpolation accuracy on densely sampled point isotherms is not decided here.",
+        technique="symbolic execution of the real functions + z3 with linregress/adsorbate/isotherm contract stubs; sympy lemma"),
 }
 
 NOT_YET = {
